@@ -846,6 +846,14 @@ class SC(object):
             return r
         raise EngineGap('complex power with non-integer exponent')
 
+    def exp(self):
+        """exp of a complex constant (phase factors built from concrete grids); symbolic exponents are not encoded"""
+        if self.re.t.op == 'const' and self.im.t.op == 'const':
+            import cmath
+            z = cmath.exp(complex(float(self.re.t.val), float(self.im.t.val)))
+            return SC(SV(lift(z.real)), SV(lift(z.imag)))
+        raise EngineGap('exp of a symbolic complex number')
+
     def conjugate(self):
         return SC(self.re, -self.im)
 
